@@ -386,6 +386,9 @@ func c05(c *core.Ctx) {
 		}
 	}
 
+	rCF := c.Rule("C05.compactflush", "the inline compaction that a Write can trigger closes the open writer (flushing the entries of the triggering batch) before it rewrites the file (shared with C03.entrypoints)", 1)
+	closeBeforeCompact(c, rCF)
+
 	// units
 	rU := c.Rule("C05.units", "created/updated/expiry are stored as UnixNano by their setters and leave the gateway through time.Unix(0, x)", 5)
 	for _, k := range []string{"SetCreatedAt", "SetModifiedAt", "SetExpirationTime"} {
